@@ -6,7 +6,7 @@ From Molt Require Import Model.Base Model.ListSyn Model.Float Model.Value Model.
 Local Open Scope N_scope.
 
 Definition c14_prelude : str :=
-  lit "proc pa2 {a b} {}; set nonint abc; proc rce {} {return -code error rmsg}; proc rcei {} {return -code error -errorcode ECODE -errorinfo {given info} imsg}; proc rcec {} {return -code error -errorcode ONLYCODE cmsg}".
+  lit "proc pa2 {a b} {}; set nonint abc; proc rce {} {return -code error rmsg}; proc rcei {} {return -code error -errorcode ECODE -errorinfo {given info} imsg}; proc rcec {} {return -code error -errorcode ONLYCODE cmsg}; proc rceo {} {return -errorcode OCODE -code error omsg}".
 
 Definition gvar (st : interp) (n : string) : term :=
   match st_scalar st (lit n) with Ok v => TStr (as_str v) | _ => TStr (lit "<unset>") end.
@@ -26,6 +26,8 @@ Definition c14_model_obs (c : term) : term :=
       host_obs st0 (lit "set c [catch {" ++ f ++ lit "} r o]; rec caught $c $r [dict get $o -code] [dict get $o -errorcode] [dict get $o -errorinfo] $errorCode $errorInfo")
     else if str_eqb variant (lit "rethrow") then
       host_obs st0 (lit "catch {" ++ f ++ lit "} r o; rec first [dict get $o -errorinfo]; return {*}$o $r")
+    else if str_eqb variant (lit "rethrow3") then
+      host_obs st0 (lit "catch {" ++ f ++ lit "} r o; rec first [dict get $o -errorinfo]; proc again {r o} {return -errorinfo [dict get $o -errorinfo] -errorcode [dict get $o -errorcode] -code error $r}; catch {again $r $o} r2 o2; rec second $r2 [dict get $o2 -errorcode] [dict get $o2 -errorinfo]")
     else if str_eqb variant (lit "rethrow2") then
       host_obs st0 (lit "catch {" ++ f ++ lit "} r o; rec first [dict get $o -errorinfo]; proc again {r o} {return -code error -errorcode [dict get $o -errorcode] -errorinfo [dict get $o -errorinfo] $r}; catch {again $r $o} r2 o2; rec second $r2 [dict get $o2 -errorcode] [dict get $o2 -errorinfo]")
     else
@@ -103,7 +105,7 @@ Definition c14_spec_ok (c obs : term) : bool :=
             && str_eqb einfo first && str_eqb ginfo first && trace_ok c first
         | _, _ => false
         end
-      else if str_eqb variant (lit "rethrow2") then
+      else if str_eqb variant (lit "rethrow2") || str_eqb variant (lit "rethrow3") then
         match calls with
         | [TList [TStr _; TStr first]; TList [TStr _; TStr msg; TStr ecode; TStr einfo]] =>
             str_eqb msg (term_str (term_nth e 0)) && str_eqb ecode (term_str (term_nth e 1))
